@@ -259,6 +259,56 @@ def _record_save(env, scenario, seed):
     return {"initial": initial, "final": final, "log": rec.log, "exp1": r1[1], "exp2": r2[1], "dir": d}
 
 
+def case_fsync_error(p):
+    """The disk fails while a save is made durable: write() and flush() went into the page cache, fsync() reports the failure (EIO, ENOSPC,
+    EDQUOT) and what the medium holds of that file is short.  The save must not report success, and the previously saved pairings must still
+    load."""
+    import errno
+
+    pool = _pool(p.get("seed", 0))
+    s1, s2 = SCENARIOS[p["scenario"]]
+    out = []
+    with _Env() as env:
+        d = env.sub()
+        fname = os.path.join(d, TARGET)
+        c1 = _controller()
+        _apply_members(c1, s1, pool)
+        c1.save_data(fname)
+        want_old = _expected_view(s1, pool)
+        c2 = _controller()
+        c2.load_data(fname)
+        _apply_members(c2, [m for m in s2 if m not in s1], pool)
+        real_fsync, real_fdatasync = os.fsync, os.fdatasync
+        fired = {"n": 0}
+
+        def failing(fd):
+            fired["n"] += 1
+            try:
+                os.ftruncate(fd, min(p["kept"], os.fstat(fd).st_size))  # what the failed write-back left of the file
+            except OSError:
+                pass
+            raise OSError(getattr(errno, p["errno"]), os.strerror(getattr(errno, p["errno"])))
+
+        os.fsync = os.fdatasync = failing
+        try:
+            try:
+                c2.save_data(fname)
+                raised = None
+            except Exception as e:  # noqa: BLE001
+                raised = e
+        finally:
+            os.fsync, os.fdatasync = real_fsync, real_fdatasync
+        det = {"scenario": p["scenario"], "errno": p["errno"], "bytes_the_medium_kept": p["kept"], "fsync_calls": fired["n"], "raised": type(raised).__name__ if raised else None}
+        if not fired["n"]:
+            return []  # (a save that never calls fsync is judged by the crash enumeration)
+        r = _load(fname)
+        if raised is None and (r[0] != "ok" or r[1] != _expected_view(s2, pool)):
+            out.append(("fsync-error:save-reports-success-though-the-disk-failed", dict(det, load=str(r[:2])[:120])))
+        if r[0] != "ok" or r[1] not in (want_old, _expected_view(s2, pool)):
+            out.append(("fsync-error:previously-saved-pairings-lost", dict(det, load=str(r[:2])[:160])))
+    return out
+
+
 def _phase(rec, state):
     ops = rec["log"][: state["point"]]
     content = state["files"].get(TARGET)
@@ -996,6 +1046,7 @@ CASES = {
     "locale": case_locale,
     "crash": case_crash,
     "recover": case_recover,
+    "fsync_error": case_fsync_error,
     "pairings": case_pairings,
     "database": case_database,
     "cache": case_cache,
@@ -1015,6 +1066,8 @@ def _work_list(item, seed, tier):
         v = fn(p)
         if name == "locale":
             nontrivial, syms = True, (name, "locale:" + p["inner"]["case"])
+        elif name == "fsync_error":
+            nontrivial, syms = True, (name, "fsync_error:" + p["errno"])
         elif name in ("config_change", "ble_writethrough"):
             nontrivial, syms = True, (name, "config_change:" + p["transport"]) + tuple("cfg:" + x.split(":")[0] for x in p["history"])
         elif name == "pairings":
@@ -1141,13 +1194,17 @@ def run(ctx):
                                corruptions="every prefix; 0xFF / NUL / '\"' substituted at every position; '\"' inserted at every position; NUL from every position to the end",
                                cache_save_crash_scenarios=sorted(CACHE_SCENARIOS))
 
+    # ---- (3b) the disk fails at the moment a save is made durable
+    fe = [{"scenario": sc, "errno": en, "kept": k, "seed": seed} for sc in (scenarios if not quick else scenarios[:2]) for en in ("EIO", "ENOSPC", "EDQUOT") for k in (0, 1, 200, 10**6)]
+    work += _chunks("fsync_error", fe, 12)
+
     # ---- (4) configuration changes announced to a connected pairing: what a restart reads afterwards
     work += _chunks("config_change", _cfg.plan(ctx.tier, seed), 20)
     work += _chunks("ble_writethrough", _cfg.plan_ble(ctx.tier, seed), 40)
     ctx.bounds["config_change"] = dict(alphabet=_cfg.ALPH, transports=["ip", "coap"], history_length=3 if quick else 5)
 
     # heavy chunks first
-    order = {"ble_writethrough": 4, "config_change": 4, "database": 0, "crash": 1, "cache": 2, "cache_crash": 3, "pairings": 4, "locale": 1}
+    order = {"fsync_error": 4, "ble_writethrough": 4, "config_change": 4, "database": 0, "crash": 1, "cache": 2, "cache_crash": 3, "pairings": 4, "locale": 1}
     work.sort(key=lambda w: order[w[0]])
     ctx.pmap(_work, work)
     ctx.exhaustive = True
